@@ -72,7 +72,7 @@ static void wildRec(const ob::StateSpace *sp, std::vector<std::vector<Coords>> &
 
 static void runEnforce(const std::string &name, const vf::Args &a, vf::Report &rep)
 {
-    SpaceCfg c = makeSpace(name, a.thorough() ? 3 : 2);
+    SpaceCfg c = makeSpace(name, 3);
     auto &sp = c.space;
     ob::State *s = sp->allocState(), *t = sp->allocState();
     auto rj = [&](const Coords &in) { return "{\"mode\":\"enforce\",\"space\":" + vf::jesc(name) + ",\"in\":" + cstr(in) + "}"; };
@@ -113,7 +113,7 @@ static void runEnforce(const std::string &name, const vf::Args &a, vf::Report &r
     size_t total = 1;
     for (auto &p : parts)
         total *= p.size();
-    if (total <= (a.thorough() ? 2000000u : 200000u))
+    if (total <= (a.thorough() ? 4000000u : 800000u))
     {
         for (auto &co : product(parts))
             one(co, false);
@@ -229,7 +229,7 @@ static void runSamplers(const std::string &name, const vf::Args &a, vf::Report &
     std::vector<double> dists = {0.0, 1e-9, 0.3 * ext, ext, 10 * ext};
     // centres: a spread of lattice states
     std::vector<size_t> centres;
-    size_t nC = a.thorough() ? 8 : 4;
+    size_t nC = a.thorough() ? 10 : 6;
     for (size_t k = 0; k < nC && k < P.st.size(); ++k)
         centres.push_back(k * (P.st.size() - 1) / std::max<size_t>(1, std::min(nC, P.st.size()) - 1));
     std::vector<ob::StateSamplerPtr> samplers = {sp->allocStateSampler()};
@@ -242,7 +242,7 @@ static void runSamplers(const std::string &name, const vf::Args &a, vf::Report &
         samplers.push_back(sp->allocSubspaceStateSampler(cs->getSubspace(0)));
         sname.push_back("subspace-first");
     }
-    size_t fullDepth = a.thorough() ? 5 : 3;
+    size_t fullDepth = a.thorough() ? 5 : 4;
     for (size_t si = 0; si < samplers.size(); ++si)
         for (const char *mode : {"uniform", "near", "gauss"})
             for (size_t ci : centres)
